@@ -10,27 +10,98 @@ Open Scope N_scope.
 
 (* ---- conversion ---- *)
 
-(* FULL STATEMENT (false of the code, see C20_convert_shape_refuted and known finding uint64-wraps):
-     forall hi lc g v, convert_with hi lc g = Ok v -> converts lc hi g v.
-   Proved under the negation of the finding's trigger: no unsigned integer >= 2^63 occurs in g.
-   The result has the structure and the scalar values of the Go value, struct fields appear under
-   their lowerCamel names, unexported fields do not appear (Spec/ConvertSpec.v), for values of
-   unbounded nesting.  [Err] (a panic: rejected kinds, non-string map keys) and [OutOfModel]
-   (Marshaler / data.Value reached only by NewWith's pointer drilling) are not [Ok]. *)
-Theorem C20_convert_shape_partial : forall hi lc g v,
-  uints_fit g = true -> convert_with hi lc g = Ok v -> converts lc hi g v.
+(* The result has the structure and the scalar values of the Go value: struct fields appear under their
+   lowerCamel names, unexported fields do not appear, pointers and interfaces are transparent at any depth,
+   an unsigned integer that no Int can hold becomes the nearest Float (Spec/ConvertSpec.v), for values of
+   unbounded nesting.  No guard: the statement that was C20_convert_shape_partial (guard: no unsigned integer
+   >= 2^63) and C20_convert_shape_refuted (the wrap to a negative Int) is proved in full for the converter
+   AFTER the repair proposed in notes/pending/C20-uint64-float.diff; until that diff is applied the
+   harness reports the wrap on /repo as known finding uint64-wraps.
+   [Err] is a panic (rejected kinds, non-string map keys);
+   [OutOfModel] is exactly C20_convert_outofmodel below. *)
+Theorem C20_convert_shape : forall hi lc g v,
+  convert_with hi lc g = Ok v -> converts lc hi g v.
 Proof. exact convert_shape. Qed.
-Print Assumptions C20_convert_shape_partial.
+Print Assumptions C20_convert_shape.
 
-Theorem C20_convert_shape_refuted : forall hi lc, exists g v, convert_with hi lc g = Ok v /\ ~ converts lc hi g v.
-Proof. exact convert_shape_refuted. Qed.
-Print Assumptions C20_convert_shape_refuted.
+(* unsigned integers: below 2^63 the Int with the same value; from 2^63 on the Float nearest to it
+   (relative error at most 2^-53: float64(u) rounds to nearest, ties to even), never a negative Int *)
+Theorem C20_convert_uint_small : forall hi lc w z, (z < two63)%Z -> convert_with hi lc (GUint w z) = Ok (VInt z).
+Proof. exact convert_uint_small. Qed.
+Print Assumptions C20_convert_uint_small.
 
-(* ... and this is all that goes wrong with them: the value wraps modulo 2^64 *)
-Theorem C20_convert_uint_wraps : forall hi lc w z, (two63 <= z < two64)%Z ->
-  convert_with hi lc (GUint w z) = Ok (VInt (z - two64)).
-Proof. exact convert_uint_wraps. Qed.
-Print Assumptions C20_convert_uint_wraps.
+Theorem C20_convert_uint_big : forall hi lc w z, (two63 <= z)%Z ->
+  exists m e, convert_with hi lc (GUint w z) = Ok (VFloat (FFin m e)) /\
+              (0 <= e)%Z /\ (Z.abs (m * 2 ^ e - z) * two53 <= z)%Z.
+Proof. exact convert_uint_big. Qed.
+Print Assumptions C20_convert_uint_big.
+
+Example C20_convert_uint_nonvacuous :
+  convert_with (fun r => r) true (GUint 64 (two64 - 1)) = Ok (VFloat (FFin 1 64)) /\
+  convert_with (fun r => r) true (GUint 64 two63) = Ok (VFloat (FFin 1 63)) /\
+  convert_with (fun r => r) true (GUint 64 (two63 + 1024)) = Ok (VFloat (FFin 1 63)) /\          (* tie: to even *)
+  convert_with (fun r => r) true (GUint 64 (two63 + 3072)) = Ok (VFloat (FFin 2251799813685249 12)) /\  (* tie: to even, upwards *)
+  convert_with (fun r => r) true (GUint 64 (two63 - 1)) = Ok (VInt (two63 - 1)).
+Proof. vm_compute. repeat split; reflexivity. Qed.
+
+(* ---- pointer chains of any depth ([ptrs k g] = k pointers to g) ----
+   Two or more pointers: NewWith's drilling loop, which does not look at method sets any more ... *)
+Theorem C20_pointer_chain : forall lc hi k g n,
+  conv lc hi CSlot (ptrs (S (S k)) g) n = conv lc hi CDeep g n.
+Proof. exact conv_ptr_chain. Qed.
+Print Assumptions C20_pointer_chain.
+
+(* ... so a value-receiver Marshaler gives MarshalValue() when passed itself or through one pointer, and
+   converts as the plain value it is (its struct fields ...) behind any longer chain *)
+Theorem C20_marshaler_by_depth : forall lc hi k v u n,
+  conv lc hi CSlot (GMarshal v u) n = Ok (v, n) /\
+  conv lc hi CSlot (GPtr (Some (GMarshal v u))) n = Ok (v, n) /\
+  conv lc hi CSlot (ptrs (S (S k)) (GMarshal v u)) n = conv lc hi CDeep u n.
+Proof.
+  intros lc hi k v u n. destruct (conv_marshal_direct lc hi v u n) as [H0 H1].
+  split; [exact H0|]. split; [exact H1 | apply conv_marshal_deep].
+Qed.
+Print Assumptions C20_marshaler_by_depth.
+
+(* ... an existing data.Value is returned as it is when passed itself, and behind two or more pointers
+   becomes its plain image (same scalars; a new list / map with the same elements; Null and Undefined,
+   being empty structs, an empty map) *)
+Theorem C20_value_by_depth : forall lc hi k v n,
+  conv lc hi CSlot (GValue v) n = Ok (v, n) /\
+  exists r n', conv lc hi CSlot (ptrs (S (S k)) (GValue v)) n = Ok (r, n') /\ plain_of v r.
+Proof. intros lc hi k v n. split; [reflexivity | apply conv_value_deep]. Qed.
+Print Assumptions C20_value_by_depth.
+
+(* ... and a nil pointer at the end of any chain is null, whatever it points to (a nil pointer to a value-receiver
+   Marshaler included: the model describes the converter after notes/pending/C20-nil-marshaler.diff; the pinned tree
+   calls MarshalValue through it and panics, reported as known finding nil-marshaler-panics), with the one exception of
+   the nil pointer to a data.Value type passed directly *)
+Theorem C20_nil_pointer_chain : forall lc hi k m n,
+  conv lc hi CSlot (ptrs k (GPtr None)) n = Ok (VNull, n) /\
+  conv lc hi CSlot (ptrs k (GNilPtrTo true)) n = Ok (VNull, n) /\
+  conv lc hi CSlot (ptrs (S k) (GNilPtrTo m)) n = Ok (VNull, n) /\
+  conv lc hi CSlot (GNilPtrTo false) n = OutOfModel.
+Proof. exact conv_nil_chain. Qed.
+Print Assumptions C20_nil_pointer_chain.
+
+(* What remains outside the model, exactly: OutOfModel arises only where NewWith meets a POINTER to one of
+   the eight data.Value types (nil or not) at a place where it inspects the dynamic type -- the pointer
+   satisfies data.Value through Go's method sets and is returned as it is, a data.Value that is none of
+   the eight value types (the model's value type has no such inhabitant). *)
+Theorem C20_convert_outofmodel : forall hi lc g,
+  convert_with hi lc g = OutOfModel -> ptr_to_value CSlot g = true.
+Proof. exact convert_outofmodel. Qed.
+Print Assumptions C20_convert_outofmodel.
+
+Example C20_pointer_chain_nonvacuous :
+  let mar := GMarshal (VStr (b "custom")) (GStruct [(b "V", (true, (false, GIface (Some (GValue (VStr (b "custom")))))));
+                                                      (b "Ignore", (true, (false, GInt 64 7)))]) in
+  convert_with (fun r => r) true (GPtr (Some mar)) = Ok (VStr (b "custom")) /\
+  convert_with (fun r => r) true (GPtr (Some (GPtr (Some mar)))) = Ok (VMap 2 [(b "ignore", VInt 7); (b "v", VStr (b "custom"))]) /\
+  convert_with (fun r => r) true (GPtr (Some (GPtr (Some (GPtr (Some (GValue VNull))))))) = Ok (VMap 2 []) /\
+  convert_with (fun r => r) true (GPtr (Some (GValue (VInt 3)))) = OutOfModel /\
+  ptr_to_value CSlot (GSlice (Some [GInt 8 1; GPtr (Some (GValue (VInt 3)))])) = true.
+Proof. vm_compute. repeat split; reflexivity. Qed.
 
 Example C20_convert_nonvacuous :
   convert_with (fun r => r) true
